@@ -282,6 +282,27 @@ def shard_sweep(spec, R):
             if msg:
                 R.violation(f"C12:lazy-vs-eager:{name}", msg, case)
                 continue
+        # warnings escalated to errors (python -W error, pytest filterwarnings=error): whatever happens, it happens the same
+        # way for in-memory and for dask-backed data (a guard that only covers the eager evaluation splits the two)
+        if da.dtype == np.int16:
+            def under_w_error(fn):
+                with warnings.catch_warnings():
+                    warnings.simplefilter("error")
+                    try:
+                        r_ = fn()
+                        return ("ok", r_)
+                    except Exception as e_:
+                        return ("raise", type(e_).__name__ + ": " + str(e_)[:60])
+            ew = under_w_error(lambda: f(da))
+            d1w = da.chunk({"time": -1, "y": 2, "x": -1})
+            lw = under_w_error(lambda: f(d1w).compute(scheduler="synchronous"))
+            R.count("warnings_as_errors_pairs")
+            if ew[0] != lw[0] or (ew[0] == "raise" and ew[1].split(":")[0] != lw[1].split(":")[0]):
+                R.violation(f"C12:warnings-as-errors:{name}", f"{name} with warnings escalated to errors: in memory {ew[0]} {ew[1] if ew[0] == 'raise' else ''}, dask-backed {lw[0]} {lw[1] if lw[0] == 'raise' else ''}", {"op": name})
+            elif ew[0] == "ok":
+                msg = equal_results(ew[1], lw[1], f"{name} under warnings-as-errors, eager vs dask")
+                if msg:
+                    R.violation(f"C12:warnings-as-errors:{name}", msg, {"op": name})
         # two lazy results over the same cube that differ only in an auxiliary input, evaluated in ONE graph
         if name in siblings and da.dtype == np.int16:
             g2 = siblings[name]
